@@ -91,15 +91,19 @@ HOSTILE = ['100%%', 'a=b', 'k: v', 'x # not a comment', 'semi;colon', 'a  =  b :
 
 # ------------------------------------------------------------------ helpers
 def kinds():
-    """{path: (ini key, dcodec, pcodec, extras)} for every expressible option of the measured tables"""
+    """{path: (ini key, dcodec, kind of values to try, extras)} for every option the writers emit.  The kind is the
+    conversion of the reader's row for the ini key; when the reader has no row for that key (a broken table) the
+    values are still generated: by the reader's row for the same path, else by the writer's rendering."""
+    by_path = {row[0]: row[1] for row in MEASURED['parse'].values()}
+    fallback = {'DStr': 'PStr', 'DLower': 'PBool', 'DBool': 'PBool', 'DJoin': 'PList'}
     out = {}
     for p in MEASURED['paths']:
         if p in MEASURED['dump']:
             ik, dc = MEASURED['dump'][p]
-            if ik in MEASURED['parse']:
+            if ik in MEASURED['parse'] and MEASURED['parse'][ik][0] == p:
                 out[p] = (ik, dc, MEASURED['parse'][ik][1], MEASURED['parse'][ik][2])
             else:
-                out[p] = (ik, dc, None, [])
+                out[p] = (ik, dc, by_path.get(p, fallback[dc]), [])
     return out
 
 
@@ -210,8 +214,6 @@ def single_option_cases():
     cases = []
     for p in sorted(K):
         pc = K[p][2]
-        if pc is None:
-            continue
         vals = list(POOL[pc])
         for v in SPECIAL.get(p, []):
             if v not in vals:
@@ -231,7 +233,7 @@ def pick_value(rng, p, pc, instance_safe):
 
 def random_component_cases(rng, n):
     K = kinds()
-    paths = sorted(p for p in K if K[p][2])
+    paths = sorted(K)
     cases = []
     for _ in range(n):
         k = rng.choice([2, 3, 5, 8, 12, len(paths)])
@@ -240,7 +242,7 @@ def random_component_cases(rng, n):
         variables = {}
         for _j in range(rng.choice([0, 0, 1, 2, 4])):
             variables[rng.choice(['george', 'n', 'Count', 'my-var', 'x.y', 'UPPER', 'v2', 'sim_range'])] = \
-                rng.choice(['of the jungle', 3, '2.5', True, '%(n)s', 'a b', '/abs/path'])
+                rng.choice(['of the jungle', 3, '2.5', True, '%(other)s', 'a b', '/abs/path'])   # no cyclic definitions
         cases.append((opts, variables))
     return cases
 
@@ -249,7 +251,7 @@ def random_component_cases(rng, n):
 def gen_doc(rng, cover, hostile=False):
     """one workflow description; `cover` is a list of option paths that must be used by this workflow"""
     K = kinds()
-    paths = sorted(p for p in K if K[p][2])
+    paths = sorted(K)
     nstages = rng.choice([1, 2, 2, 3])
     comps = []
     names = ['A', 'B', 'Gen', 'merge', 'w3', 'Post-1', 'x_y', 'C7']
@@ -541,7 +543,7 @@ def run(ctx):
     explore_components(ctx, ccomps + single_option_cases(), 'A')
     explore_components(ctx, random_component_cases(rng, 250 if quick else 2500), 'B')
     K = kinds()
-    paths = sorted(p for p in K if K[p][2])
+    paths = sorted(K)
     flows = list(cflows)
     n = 40 if quick else 400
     while len(flows) < n:
